@@ -611,4 +611,144 @@ example : Gen.cmdRows.length ≥ 40 ∧ (Gen.fieldRows.any fun r => r.side == .r
     ∧ (Gen.fieldRows.any fun r => r.side == .resp && r.fmt == .plain && r.ok) = true := by
   refine ⟨by decide +kernel, by decide +kernel, by decide +kernel, by decide +kernel⟩
 
+/-! ## every catalogue row, every key, every keyspace: transparency and isolation through the field walker
+
+  `FieldRow.action` (Model/ApiV2Fields.lean) is the codec's action on one key in a field, determined by the row's
+  OBSERVED classification.  The lemmas of Proofs/ApiV2Fields.lean hold for any row satisfying the rule; here they
+  are lifted over the regenerated table: a row that is in the catalogue and is not a known finding satisfies the
+  rule (`all_key_fields_encoded`), hence the statements hold for it for ALL keys and ALL keyspace ids. -/
+
+theorem catalogue_row_ok {r : FieldRow} (hm : r ∈ Gen.fieldRows) (hk : r.known = false) : r.ok = true := by
+  have h := (List.all_eq_true.mp all_key_fields_encoded.2) r hm
+  simpa [hk] using h
+
+/-- transparency: a key (or list of keys) sent through ANY request field of the catalogue and echoed back through
+    ANY plain response field (pairs, lock infos, key errors, …) reaches the caller unchanged — decode ∘ encode = id
+    on user keys, for every keyspace and every non-empty key -/
+theorem catalogue_fields_roundtrip (rq rp : FieldRow) (hq : rq ∈ Gen.fieldRows) (hp : rp ∈ Gen.fieldRows)
+    (hqs : rq.side = .req) (hqk : rq.known = false) (hps : rp.side = .resp) (hpf : rp.fmt = .plain)
+    (hpk : rp.known = false) (ks : Keyspace) :
+    (∀ k, k ≠ [] → echo ks ks rq rp k = .ok k) ∧
+    (∀ l : List Bytes, (∀ k ∈ l, k ≠ []) → echoAll ks ks rq rp l = .ok l) :=
+  ⟨fun _ hk => echo_same hqs (catalogue_row_ok hq hqk) hps hpf (catalogue_row_ok hp hpk) ks hk,
+   fun l hl => echoAll_same hqs (catalogue_row_ok hq hqk) hps hpf (catalogue_row_ok hp hpk) ks l hl⟩
+
+/-- isolation: a key written through any request field by a client of keyspace `a` is REJECTED (`errKeyOutOfBound`)
+    by every plain response field of a client of a different keyspace or mode `b` — never delivered, for all ids
+    `0 … 2^24-1`; and whatever a response field does deliver is a key that carried exactly this keyspace's prefix -/
+theorem catalogue_fields_isolated (rq rp : FieldRow) (hq : rq ∈ Gen.fieldRows) (hp : rp ∈ Gen.fieldRows)
+    (hqs : rq.side = .req) (hqk : rq.known = false) (hps : rp.side = .resp) (hpf : rp.fmt = .plain)
+    (hpk : rp.known = false) (a b : Keyspace) (ha : a.valid = true) (hb : b.valid = true) (hne : a ≠ b) :
+    (∀ k, k ≠ [] → echo a b rq rp k = .error .outOfBound) ∧
+    (∀ l : List Bytes, (∀ k ∈ l, k ≠ []) → l ≠ [] → echoAll a b rq rp l = .error .outOfBound) ∧
+    (∀ x k, x ≠ [] → rp.action b x = .ok k → x = encodeKey b k ∧ x ≠ encodeKey a k) := by
+  have hqo := catalogue_row_ok hq hqk
+  have hpo := catalogue_row_ok hp hpk
+  refine ⟨fun _ hk => echo_foreign hqs hqo hps hpf hpo ha hb hne hk,
+          fun l hl hn => echoAll_foreign hqs hqo hps hpf hpo ha hb hne l hl hn, ?_⟩
+  intro x k hx h
+  have h1 := resp_action_sound hps hpf hpo b hx h
+  exact ⟨h1, by rw [h1]; exact fun h2 => encodeKey_ne_foreign ha hb hne k k h2.symm⟩
+
+/-- what any catalogue request field puts on the wire: the prefixed key for a non-empty key; for an empty key the
+    keyspace end (range end), the keyspace prefix (range start — never the global start), the prefix or "unset"
+    (plain key); in every case a non-empty wire value lies inside `[prefix, endKey]` of the client's keyspace -/
+theorem catalogue_request_fields_bounded (rq : FieldRow) (hq : rq ∈ Gen.fieldRows) (hqs : rq.side = .req)
+    (hqk : rq.known = false) (ks : Keyspace) (hv : ks.valid = true) :
+    (∀ k, k ≠ [] → rq.action ks k = .ok (encodeKey ks k)) ∧
+    (rq.role = .end_ → rq.action ks [] = .ok ks.endKey) ∧
+    (rq.role = .start → rq.action ks [] = .ok ks.pfx) ∧
+    (rq.role = .key → rq.action ks [] = .ok ks.pfx ∨ rq.action ks [] = .ok []) ∧
+    (∀ k w, rq.action ks k = .ok w → w ≠ [] →
+      Bytes.le ks.pfx w = true ∧ Bytes.le w ks.endKey = true ∧ (k ≠ [] → Bytes.lt w ks.endKey = true)) := by
+  have hqo := catalogue_row_ok hq hqk
+  obtain ⟨h1, h2, h3⟩ := req_action_empty hqs hqo ks
+  exact ⟨fun _ hk => req_action_nonempty hqs hqo ks hk, h1, h2, h3,
+         fun k w h hw => req_action_within_bounds hqs hqo ks hv k w h hw⟩
+
+/-- region descriptions (region errors, split results): every catalogue field in region format returns the user's
+    bound for a region bound of this keyspace, and a bound it delivers non-empty always was (the memcomparable form
+    of) a key of THIS keyspace — a foreign bound is clipped to "unbounded" or the region rejected -/
+theorem catalogue_region_fields (rp : FieldRow) (hp : rp ∈ Gen.fieldRows) (hps : rp.side = .resp)
+    (hpf : rp.fmt = .region) (hpk : rp.known = false) (ks : Keyspace) (hv : ks.valid = true) :
+    (rp.role = .start → ∀ k, rp.action ks (encodeRegionKey ks k) = .ok k) ∧
+    (rp.role = .end_ → ∀ k, k ≠ [] → rp.action ks (encodeRegionKey ks k) = .ok k) ∧
+    (∀ x k, rp.action ks x = .ok k → k ≠ [] → memDecode x = .ok (encodeKey ks k)) := by
+  have hpo := catalogue_row_ok hp hpk
+  exact ⟨fun hr k => resp_region_start hps hpf hpo hr ks hv k,
+         fun hr k hk => resp_region_end hps hpf hpo hr ks k hk,
+         fun x k h hk => resp_region_sound hps hpf hpo ks h hk⟩
+
+/-- non-vacuity of the lifted theorems: the table contains unwaived request rows of each role, plain response rows
+    and region-format response rows of both roles -/
+example :
+    (Gen.fieldRows.any fun r => r.side == .req && !r.known && r.role == .key) = true ∧
+    (Gen.fieldRows.any fun r => r.side == .req && !r.known && r.role == .start) = true ∧
+    (Gen.fieldRows.any fun r => r.side == .req && !r.known && r.role == .end_) = true ∧
+    (Gen.fieldRows.any fun r => r.side == .resp && !r.known && r.fmt == .plain) = true ∧
+    (Gen.fieldRows.any fun r => r.side == .resp && !r.known && r.fmt == .region && r.role == .start) = true ∧
+    (Gen.fieldRows.any fun r => r.side == .resp && !r.known && r.fmt == .region && r.role == .end_) = true := by
+  refine ⟨by decide +kernel, by decide +kernel, by decide +kernel, by decide +kernel, by decide +kernel, by decide +kernel⟩
+
+/-! ## end to end against an abstract shared store: the keyspace client behaves like the unprefixed client on its
+    own view and cannot touch another keyspace's view -/
+
+/-- Put / Delete: the client's own view changes exactly like the logical map (Get is `view` itself) -/
+theorem keyspace_point_ops_transparent (ks : Keyspace) (σ : KvMap) (k v : Bytes) :
+    view ks (ksPut ks σ k v) = (view ks σ).put k v ∧ view ks (ksDelete ks σ k) = (view ks σ).del k := by
+  constructor <;> funext y <;> simp only [view, ksPut, ksDelete, KvMap.put, KvMap.del]
+  · by_cases h : y = k
+    · simp [h]
+    · have : encodeKey ks y ≠ encodeKey ks k := fun he => h (encodeKey_inj ks he)
+      simp [h, this]
+  · by_cases h : y = k
+    · simp [h]
+    · have : encodeKey ks y ≠ encodeKey ks k := fun he => h (encodeKey_inj ks he)
+      simp [h, this]
+
+/-- DeleteRange `[s, e)` (empty `e` = unbounded) through the codec deletes exactly the logical range from the
+    client's own view -/
+theorem keyspace_delete_range_transparent (ks : Keyspace) (hv : ks.valid = true) (σ : KvMap) (s e : Bytes) :
+    view ks (ksDeleteRange ks σ s e) = (view ks σ).delRange s e := by
+  funext k
+  simp only [view, ksDeleteRange, KvMap.delInterval, KvMap.delRange, encode_order_iso_range ks hv k s e]
+
+/-- no operation of a client of keyspace `a` — point write, delete, bounded or UNBOUNDED range delete — changes
+    anything a client of another keyspace or mode `b` can observe -/
+theorem keyspace_ops_isolated (a b : Keyspace) (ha : a.valid = true) (hb : b.valid = true) (hne : a ≠ b)
+    (σ : KvMap) (k v s e : Bytes) :
+    view b (ksPut a σ k v) = view b σ ∧ view b (ksDelete a σ k) = view b σ ∧
+    view b (ksDeleteRange a σ s e) = view b σ := by
+  refine ⟨?_, ?_, ?_⟩ <;> funext y <;> simp only [view, ksPut, ksDelete, ksDeleteRange, KvMap.put, KvMap.del, KvMap.delInterval]
+  · simp [encodeKey_ne_foreign hb ha (Ne.symm hne) y k]
+  · simp [encodeKey_ne_foreign hb ha (Ne.symm hne) y k]
+  · have hno : inInterval (encodeKey b y) (encodeRange a s e false).1 (encodeRange a s e false).2 = false := by
+      cases hi : inInterval (encodeKey b y) (encodeRange a s e false).1 (encodeRange a s e false).2 with
+      | false => rfl
+      | true =>
+        exfalso
+        have h1 := encode_range_within_bounds a ha (encodeKey b y) s e false (by simpa using hi)
+        have h2 : inInterval (encodeKey b y) b.pfx b.endKey = true := by
+          simp only [inInterval, Bool.and_eq_true, Bytes.le, Bytes.lt, bne_iff_ne, beq_iff_eq, encodeKey]
+          exact ⟨pfx_le_enc b y, enc_lt_end b hb y⟩
+        exact (keyspaces_disjoint a b ha hb hne).1 _ ⟨h1, h2⟩
+    simp [hno]
+
+/-- Scan: over a store holding only well-formed keys, the physical entries inside the encoded range are exactly
+    the prefixed images of the logical entries inside the logical range — nothing foreign is returned, nothing own
+    is missed; each returned key decodes to its logical key -/
+theorem keyspace_scan_transparent (ks : Keyspace) (hv : ks.valid = true) (σ : KvMap) (hwf : σ.wellFormed)
+    (s e x v : Bytes) :
+    (σ x = some v ∧ inInterval x (encodeRange ks s e false).1 (encodeRange ks s e false).2 = true) ↔
+    ∃ k, x = encodeKey ks k ∧ decodeKey ks x = .ok k ∧ inRange k s e = true ∧ view ks σ k = some v := by
+  constructor
+  · rintro ⟨hx, hi⟩
+    have hlen : Gen.keyspacePrefixLen ≤ x.length := hwf x (by rw [hx]; simp)
+    obtain ⟨k, rfl, hk⟩ := encode_range_within_keyspace ks hv x s e hlen hi
+    exact ⟨k, rfl, decode_encode_key ks k, hk, hx⟩
+  · rintro ⟨k, rfl, _, hk, hvw⟩
+    exact ⟨hvw, by rw [encode_order_iso_range ks hv k s e]; exact hk⟩
+
+example : KvMap.wellFormed (fun _ => none) := by intro x h; exact absurd rfl h
+
 end CGV.Props.C15
